@@ -94,7 +94,13 @@ def _rw_name_param(text):
     return re.subn(r'\(_: ', '(_x: ', text)
 
 
+def _rw_name_iter_mut(text):
+    # RW14: `for vec in vectors.iter_mut() {` -> `for vec in it: vectors.iter_mut() {`
+    return re.subn(r'\bfor vec in vectors\.iter_mut\(\) \{', 'for vec in it: vectors.iter_mut() {', text)
+
+
 REWRITES = {
+    'RW14': ('for vec in vectors.iter_mut() -> for vec in it: vectors.iter_mut() (names the ghost iterator; same loop)', _rw_name_iter_mut),
     'RW13': ('fn f(_: &T) -> fn f(_x: &T) (unnamed parameter named; unused either way)', _rw_name_param),
     'RW12': ('for x in handles -> for x in it: handles (Verus syntax naming the ghost iterator; same loop)', _rw_name_iter),
     'RW11': ('for _ in R -> for _i in R (anonymous loop counter named for use in invariants)', _rw_name_loop_var),
@@ -144,6 +150,7 @@ class Block:
         self.sig = []             # list of raw lines
         self.loops = {}           # ordinal -> lines
         self.loopheads = {}       # ordinal -> lines
+        self.atend = []           # ghost lines before the closing brace of the body
         self.before = []          # (anchor, lines)
         self.after = []
         self.replace = []         # (anchor, replacement) -- only for spec-level glue, listed in report
@@ -208,6 +215,8 @@ def parse_template(path):
                 target = cur.loops.setdefault(int(rest), [])
             elif word == 'loophead':
                 target = cur.loopheads.setdefault(int(rest), [])
+            elif word == 'atend':
+                target = cur.atend
             elif word.startswith('before') or word.startswith('after'):
                 # `before <anchor>` (anchor must occur exactly once) or `before#k/n <anchor>` (k-th of exactly n)
                 w, _, occ = word.partition('#')
@@ -408,6 +417,8 @@ def build_fn(block, repo, em):
         inserts.append((_occ(anchor, k, n), lines_, 'ghost', anchor))
     for anchor, lines_, k, n in block.after:
         inserts.append((_occ(anchor, k, n) + len(anchor), lines_, 'ghost', anchor))
+    if block.atend:
+        inserts.append((len(body) - 1, block.atend, 'ghost', 'atend'))
     inserts.sort(key=lambda t: t[0])
 
     gen0 = em.cur_line()
